@@ -96,12 +96,65 @@ func (c *Ctx) fillHandler(h *handler) {
 	sort.SliceStable(calls, func(i, j int) bool {
 		return calls[i] != calls[j] && instrDominates(calls[i], calls[j]) && !instrDominates(calls[j], calls[i])
 	})
+	// a helper that is handed the stack (applyBinaryOperation(stack, op)) is part of the handler: its
+	// calls are spliced in at the call site (one level), and a call through one of its function-typed
+	// parameters is resolved to the bound method passed at the call site
+	boundMethod := map[*ssa.Parameter]string{}
+	var spliced []*ssa.Call
+	for _, call := range calls {
+		g := call.Call.StaticCallee()
+		takesStack := false
+		for _, a := range call.Call.Args {
+			if strings.HasSuffix(a.Type().String(), "CalculationStack") {
+				takesStack = true
+			}
+		}
+		if g == nil || !c.InModule(g) || g.Blocks == nil || !takesStack || recvNamedFn(g) == "CalculationStack" {
+			spliced = append(spliced, call)
+			continue
+		}
+		for i, a := range call.Call.Args {
+			if mc, ok := a.(*ssa.MakeClosure); ok && i < len(g.Params) {
+				if f, ok := mc.Fn.(*ssa.Function); ok && strings.HasSuffix(f.Name(), "$bound") && len(mc.Bindings) == 1 {
+					if nt, ok := mc.Bindings[0].Type().(*types.Named); ok && nt.Obj().Name() == "IVariantOperations" {
+						boundMethod[g.Params[i]] = strings.TrimSuffix(f.Name(), "$bound")
+					}
+				}
+			}
+		}
+		var inner []*ssa.Call
+		for _, gb := range g.Blocks {
+			for _, in := range gb.Instrs {
+				if ic, ok := in.(*ssa.Call); ok {
+					inner = append(inner, ic)
+				}
+			}
+		}
+		sort.SliceStable(inner, func(i, j int) bool {
+			return inner[i] != inner[j] && instrDominates(inner[i], inner[j]) && !instrDominates(inner[j], inner[i])
+		})
+		spliced = append(spliced, inner...)
+	}
+	calls = spliced
 	for _, call := range calls {
 		if _, ok := c.callTo(call, pkgCalc, "CalculationStack", "Pop"); ok {
 			h.pops = append(h.pops, call)
 		}
 		if _, ok := c.callTo(call, pkgCalc, "CalculationStack", "Push"); ok {
 			h.pushes = append(h.pushes, call)
+		}
+		if prm, ok := call.Call.Value.(*ssa.Parameter); ok && boundMethod[prm] != "" && h.invoke == nil {
+			h.invoke = call
+			h.method = boundMethod[prm]
+			for _, a := range call.Call.Args {
+				idx := 0
+				for i, p := range h.pops {
+					if ssa.Value(p) == a {
+						idx = i + 1
+					}
+				}
+				h.argPops = append(h.argPops, idx)
+			}
 		}
 		if call.Call.IsInvoke() && call.Call.Method != nil && h.invoke == nil {
 			if nt, ok := call.Call.Value.Type().(*types.Named); ok && nt.Obj().Name() == "IVariantOperations" {
@@ -520,7 +573,25 @@ func (c *Ctx) functionHandlerShape(h *handler) (count, order shapeVerdict) {
 	// the loop the Pop sits in: a header phi that is tested in the header's If
 	var loopVar *ssa.Phi
 	var shape string // "down" : phi(n0, p-1) tested > 0 ; "up": phi(0, i+1) tested < n0 ; "rev": phi(n0-1, i-1) tested >= 0
-	isN0 := func(v ssa.Value) bool { return stripConv(v) == n0 }
+	// the count itself, or the count clamped at zero (phi of the count and the constant 0)
+	isN0 := func(v ssa.Value) bool {
+		v = stripConv(v)
+		if v == n0 {
+			return true
+		}
+		if phi, ok := v.(*ssa.Phi); ok && phi.Block().Dominates(pop.Block()) {
+			sawN := false
+			for _, e := range phi.Edges {
+				if stripConv(e) == n0 {
+					sawN = true
+				} else if k, isK := constInt(e); !isK || k != 0 {
+					return false
+				}
+			}
+			return sawN
+		}
+		return false
+	}
 	stepOf := func(phi *ssa.Phi, v ssa.Value) (int64, bool) {
 		bo, ok := v.(*ssa.BinOp)
 		if !ok || bo.X != ssa.Value(phi) {
@@ -931,4 +1002,18 @@ func (c *Ctx) emptyCaseIsSuspicious(clauses []ast.Stmt, i int) bool {
 		return cc.List != nil
 	}
 	return false
+}
+
+func recvNamedFn(g *ssa.Function) string {
+	if g.Signature.Recv() == nil {
+		return ""
+	}
+	t := g.Signature.Recv().Type()
+	if p, ok := t.(*types.Pointer); ok {
+		t = p.Elem()
+	}
+	if nt, ok := t.(*types.Named); ok {
+		return nt.Obj().Name()
+	}
+	return ""
 }
